@@ -69,7 +69,9 @@ def spec_files(draw, tier):
         mod, typ = draw(st.sampled_from([('fractions', 'Fraction'), ('math', 'Foo'), ('nosuchmod', 'Foo'), ('collections', 'OrderedDict'),
                                           ('fractions', 'Fraction'), ('os', 'path'), ('rtamt', 'Nope'),
                                           # names that are callable but not types: creating the variable must not call them
-                                          ('sys', 'exit'), ('os', 'getcwd'), ('math', 'sqrt'), ('fractions', 'gcd')]))
+                                          ('sys', 'exit'), ('os', 'getcwd'), ('math', 'sqrt'), ('fractions', 'gcd'),
+                                          # types whose constructor, or whose property, raises something of its own
+                                          ('pathlib', 'WindowsPath'), ('multiprocessing.process', 'BaseProcess'), ('multiprocessing.process', 'BaseProcess')]))
         toks += ['from', mod, 'import', typ]
         typed = typ
     for v in vs:
@@ -126,7 +128,7 @@ def spec_files(draw, tier):
     if typed and draw(st.booleans()):
         idx = [i for i, t in enumerate(toks) if t in vs and i > 0 and toks[i - 1] not in ('float', 'input', 'output')]
         if idx:
-            toks[draw(st.sampled_from(idx))] = 'obj.' + draw(st.sampled_from(['numerator', 'real', 'a']))
+            toks[draw(st.sampled_from(idx))] = 'obj.' + draw(st.sampled_from(['numerator', 'real', 'a', 'sentinel', 'exitcode']))
     if toks and toks[-1] == ';' and draw(st.integers(0, 3)) == 0:
         toks = toks[:-1]
     if draw(st.integers(0, 4)) == 0:
